@@ -63,6 +63,7 @@ class Interp:
         self.steps = 0
         self.max_steps = max_steps
         self.atoms = set()                  # what the code compared (for evidence)
+        self._stack = []
 
     # -- values ---------------------------------------------------------------
     def truth(self, v, node=None):
@@ -187,6 +188,14 @@ class Interp:
                 return base[n.slice.value]
             if isinstance(base, (tuple, list)) and isinstance(n.slice, ast.Constant):
                 return base[n.slice.value]
+            if isinstance(base, (dict, tuple, list)) and not isinstance(n.slice, ast.Slice):
+                k = self.ev(n.slice, env)
+                if isinstance(k, (str, int)) and not isinstance(k, bool):
+                    if isinstance(base, dict):
+                        if k not in base:
+                            raise Raised('KeyError')
+                        return base[k]
+                    return base[k]
             raise AnalysisError('unsupported subscript `%s`' % norm_src(n))
         if isinstance(n, ast.Attribute):
             base = self.ev(n.value, env)
@@ -245,10 +254,56 @@ class Interp:
         if isinstance(f, ast.Name) and f.id in env and callable(env[f.id]) \
                 and not isinstance(env[f.id], Opaque):
             return env[f.id](*[self.ev(a, env) for a in n.args])
+        helper = self._new_helper(f)
+        if helper is not None:
+            fn, bound = helper
+            args = ([env['self']] if bound else []) + [self.ev(a, env) for a in n.args]
+            kwargs = {k.arg: self.ev(k.value, env) for k in n.keywords if k.arg}
+            self._stack.append(fn)
+            try:
+                return self.run(fn, args, kwargs)
+            finally:
+                self._stack.pop()
         h = self.hooks.get('call')
         if h is not None:
             return h(n, env, self)
         raise AnalysisError('call outside the evaluator: `%s`' % norm_src(n)[:80])
+
+    def _new_helper(self, f):
+        """(function def, is-method) when f names a private helper that the
+        reference tree does not have (code moved out of the evaluated
+        function): it is evaluated like the code it came from."""
+        from .pyfront import _module_of, FUNC, methods_of
+        from .inline import known_names
+        if not self._stack:
+            return None
+        cur = self._stack[-1]
+        mod = _module_of(cur)
+        if mod is None or not getattr(mod, 'relpath', None):
+            return None
+        known = known_names(mod.relpath)
+        if isinstance(f, ast.Name):
+            if f.id in known:
+                return None
+            for st in mod.body:
+                if isinstance(st, FUNC) and st.name == f.id:
+                    return st, False
+            for st in ast.walk(cur):
+                if isinstance(st, FUNC) and st is not cur and st.name == f.id:
+                    return st, False
+            return None
+        if isinstance(f, ast.Attribute) and isinstance(f.value, ast.Name) and \
+                f.value.id in ('self', 'cls') and f.attr not in known:
+            cls = getattr(cur, 'parent', None)
+            while cls is not None and not isinstance(cls, ast.ClassDef):
+                cls = getattr(cls, 'parent', None)
+            if cls is not None:
+                m = methods_of(cls, raw=True).get(f.attr)
+                if m is not None:
+                    static = any(isinstance(d, ast.Name) and d.id == 'staticmethod'
+                                 for d in m.decorator_list)
+                    return m, not static
+        return None
 
     # -- statements ---------------------------------------------------------------
     class _Return(Exception):
@@ -262,6 +317,12 @@ class Interp:
         pass
 
     def run(self, func, args, kwargs=None):
+        if not self._stack or self._stack[-1] is not func:
+            self._stack.append(func)
+            try:
+                return self.run(func, args, kwargs)
+            finally:
+                self._stack.pop()
         env = {}
         ps = func.args.args
         defaults = [None] * (len(ps) - len(func.args.defaults)) + list(func.args.defaults)
